@@ -7,7 +7,7 @@ import glob, json, os, re, shutil, sys
 OUT = "/tmp/mut/out"
 DST = "/verif/seeded"
 conf = {}
-for f in sorted(glob.glob("/tmp/mut/triage/confirm-all*.txt")) + ["/tmp/mut/triage/confirm-first.txt"]:
+for f in sorted(glob.glob("/tmp/mut/triage/confirm-all*.txt")) + ["/tmp/mut/triage/confirm-first.txt"] + sorted(glob.glob("/tmp/mut/triage/confirm-r2*.txt")):
     if not os.path.exists(f):
         continue
     for line in open(f):
@@ -37,7 +37,7 @@ for d in sorted(glob.glob(OUT + "/C??-?")):
         summary=am.get("summary"), needs_to_manifest=am.get("needs"),
         demonstration=dict(files=[os.path.basename(t) for t in glob.glob(d + "/zz_demo_*_test.go")], tests=c["tests"]),
         confirmed_in_scratch_worktree=dict(
-            what_i_ran=("in a scratch worktree of /repo (git worktree add --detach /tmp/mut/<ID> HEAD): demonstration test "
+            what_i_ran=("in a scratch worktree of /repo (git worktree add --detach <dir> HEAD): demonstration test "
                         "without the patch (go test -vet=off -count=1 -run '^(tests)$' <pkg>) -> pass; git apply patch.diff; "
                         "go build ./... -> ok; same demonstration -> FAIL; full suite "
                         "(go test -vet=off -count=1 -timeout 25m ./...) with the patch -> pass; git checkout -- ."),
